@@ -35,6 +35,22 @@ def budget_s(tier):
 @st.composite
 def case(draw, tier):
     big = tier == "thorough"
+    if draw(st.integers(0, 14)) == 0:
+        # a tick-count window pushed past its period (evictions), with clear() - alone or followed by a push in the same
+        # mutation - at arbitrary points; the element a tick removed must be readable in that tick only
+        per = draw(st.integers(1, 5))
+        start = draw(st.sampled_from([0, 3]))
+        t, script = start, []
+        for _ in range(draw(st.integers(4, 16 if big else 11))):
+            r = draw(st.integers(0, 6))
+            if r == 0:
+                script.append([t, [{"k": "wclear"}]])
+            elif r == 1:
+                script.append([t, [{"k": "wclear", "v": draw(st.integers(0, 99))}]])
+            else:
+                script.append([t, [{"k": "push", "v": draw(st.integers(0, 99))}]])
+            t += draw(st.integers(1, 3))
+        return {"schema": ("TSW", "int", per, draw(st.integers(0, 1))), "script": script, "start": start, "end": t + 1}
     if draw(st.integers(0, 11)) == 0:
         # a DURATION window fed at a changing rate: sparse phases let old entries age out (the ring's head moves), dense
         # bursts then hold more entries than ever before (the ring grows while wrapped)
@@ -330,6 +346,8 @@ def check(case, ctx) -> Result:
         return res
     tr = Trace(resp["trace"])
     model = {t: (m.val(), m.is_valid(), m.modified(), getattr(m, "count", None)) for t, m in snapshot_replay(schema, case["script"])}
+    # tick window: the element pushed out by this cycle's push (None after a clear / when nothing was evicted)
+    evicted = {t: (m.evicted if getattr(m, "evicted_at", None) == t else None) for t, m in snapshot_replay(schema, case["script"])} if schema[0] == "TSW" and not isinstance(schema[2], tuple) else {}
     kinds = classify(schema, case["script"])
     f6_t = first_erase_rewrite(case["script"])
     if f6_t is not None:
@@ -355,6 +373,10 @@ def check(case, ctx) -> Result:
                 mval, mvalid, _, cnt = exp
                 if inp["val"] != mval:
                     res.violations.append(Viol("window_contents", f"{what}: window at t={t} holds {inp['val']}, last {schema[2]} pushes are {mval}", feats))
+                    break
+                rm = (inp.get("acc") or {}).get("rm", "absent") if isinstance(inp.get("acc"), dict) else "absent"
+                if t in evicted and rm != "absent" and rm != evicted[t]:
+                    res.violations.append(Viol("window_removed_value_wrong", f"{what}: tick window {ss} at t={t}: removed_value reads {rm}, this tick pushed out {evicted[t]} (window now {mval})", {"kind": "TSW"}))
                     break
                 if inp["v"] != (cnt >= schema[3]):
                     res.violations.append(Viol("window_validity", f"{what}: tick window {ss} at t={t} after {cnt} pushes reports valid={inp['v']} (min count {schema[3]}); all_valid={inp['av']}", {"kind": "TSW", "valid_reported": inp["v"]}))
